@@ -10,7 +10,7 @@ from pymap.concurrent import Event
 from pymap.config import IMAPConfig
 from pymap.context import socket_info, connection_exit
 from pymap.exceptions import NotAllowedError, NotSupportedError, \
-    CloseConnection
+    CloseConnection, MailboxReadOnly
 from pymap.fetch import MessageAttributes
 from pymap.interfaces.login import LoginInterface
 from pymap.interfaces.session import SessionInterface
@@ -339,6 +339,9 @@ class ConnectionState:
         return resp, updates
 
     async def do_store(self, cmd: StoreCommand) -> _CommandRet:
+        if self.selected.readonly:
+            # refuse before hide_expunged or silence() change the selection
+            raise MailboxReadOnly()
         if not cmd.uid:
             self.selected.hide_expunged = True
         if cmd.silent:
